@@ -4,6 +4,7 @@ use std::io::Write;
 pub fn generate2(prop: &str, tier: &str, rng: &mut Rng, w: &mut dyn Write) {
     match prop {
         "C01" | "C07" => gen_eval(prop, tier, rng, w),
+        "C03" => gen_showdown(tier, rng, w),
         _ => {
             eprintln!("harness: no generator for {}", prop);
             std::process::exit(2);
@@ -202,5 +203,102 @@ fn gen_eval(prop: &str, tier: &str, rng: &mut Rng, w: &mut dyn Write) {
     for _ in 0..(if thorough { 2_000_000 } else { 20_000 }) {
         let h: Vec<usize> = rng.distinct(7, 52).into_iter().map(|x| x as usize).collect();
         emit_hand(w, &h);
+    }
+}
+
+fn emit_showdown(w: &mut dyn Write, prob: u32, board: &[usize], holes: &[usize]) {
+    let b: Vec<String> = board.iter().map(|c| c.to_string()).collect();
+    let h: Vec<String> = holes.iter().map(|c| c.to_string()).collect();
+    writeln!(w, "showdown 1 {} {} {}", prob, b.join(" "), h.join(" ")).unwrap();
+}
+
+/// boards on which many hands tie: the board plays (straight / flush / quads / full house on board)
+fn tie_board(kind: usize, rng: &mut Rng) -> Vec<usize> {
+    match kind % 5 {
+        0 => {
+            // broadway or lower straight on board, mixed suits
+            let top = rng.below(9) as usize;
+            (top..top + 5).enumerate().map(|(j, r)| r * 4 + (j % 4)).collect()
+        }
+        1 => {
+            // flush on board
+            let s = rng.below(4) as usize;
+            rng.distinct(5, 13).into_iter().map(|r| r as usize * 4 + s).collect()
+        }
+        2 => {
+            // quads + kicker on board
+            let r = rng.distinct(2, 13);
+            vec![r[0] as usize * 4, r[0] as usize * 4 + 1, r[0] as usize * 4 + 2, r[0] as usize * 4 + 3, r[1] as usize * 4 + rng.below(4) as usize]
+        }
+        3 => {
+            // full house on board
+            let r = rng.distinct(2, 13);
+            vec![r[0] as usize * 4, r[0] as usize * 4 + 1, r[0] as usize * 4 + 2, r[1] as usize * 4 + 1, r[1] as usize * 4 + 3]
+        }
+        _ => {
+            // two pair + high kicker on board (kicker ties)
+            let r = rng.distinct(2, 12);
+            vec![(r[0] as usize + 1) * 4, (r[0] as usize + 1) * 4 + 1, (r[1] as usize + 1) * 4 + 2, (r[1] as usize + 1) * 4 + 3, rng.below(4) as usize]
+        }
+    }
+}
+
+fn gen_showdown(tier: &str, rng: &mut Rng, w: &mut dyn Write) {
+    let thorough = tier == "thorough";
+    let probs = [0x3F800000u32, 0, 0x3F000000, 0x3DCCCCCD, 1, 0x3F7FFFFF];
+    let n_random = if thorough { 1_000_000 } else { 40_000 };
+    // random tables of 1..10 players with distinct cards
+    for i in 0..n_random {
+        let np = 1 + rng.below(10) as usize;
+        let cards: Vec<usize> = rng.distinct(5 + 2 * np, 52).into_iter().map(|x| x as usize).collect();
+        emit_showdown(w, probs[i % probs.len()], &cards[..5], &cards[5..]);
+    }
+    // tie-heavy boards: the board plays, kickers shared
+    for i in 0..(if thorough { 200_000 } else { 20_000 }) {
+        let board = tie_board(i, rng);
+        let mut b2 = board.clone();
+        b2.sort();
+        b2.dedup();
+        if b2.len() != 5 {
+            continue;
+        }
+        let np = 2 + rng.below(9) as usize;
+        let mut holes: Vec<usize> = vec![];
+        while holes.len() < 2 * np {
+            let c = rng.below(52) as usize;
+            if !board.contains(&c) && !holes.contains(&c) {
+                holes.push(c);
+            }
+        }
+        emit_showdown(w, probs[i % probs.len()], &board, &holes);
+    }
+    // board collisions (no showdown), at each player position
+    for i in 0..(if thorough { 20_000 } else { 3_000 }) {
+        let np = 1 + rng.below(6) as usize;
+        let mut cards: Vec<usize> = rng.distinct(5 + 2 * np, 52).into_iter().map(|x| x as usize).collect();
+        let victim = 5 + rng.below(2 * np as u64) as usize;
+        cards[victim] = cards[rng.below(5) as usize];
+        emit_showdown(w, probs[i % probs.len()], &cards[..5].to_vec(), &cards[5..].to_vec());
+    }
+    // players sharing hole cards with each other (outside C03's hypothesis; model vs implementation only)
+    for i in 0..(if thorough { 10_000 } else { 1_000 }) {
+        let np = 2 + rng.below(4) as usize;
+        let mut cards: Vec<usize> = rng.distinct(5 + 2 * np, 52).into_iter().map(|x| x as usize).collect();
+        let k = cards.len();
+        cards[k - 1] = cards[5];
+        emit_showdown(w, probs[i % probs.len()], &cards[..5].to_vec(), &cards[5..].to_vec());
+    }
+    // no players at all; one fixed hand against every single opponent on some boards
+    emit_showdown(w, 0x3F800000, &[0, 5, 10, 15, 20], &[]);
+    for _ in 0..(if thorough { 2000 } else { 10 }) {
+        let cards: Vec<usize> = rng.distinct(7, 52).into_iter().map(|x| x as usize).collect();
+        for x in 0..52 {
+            for y in (x + 1)..52 {
+                if cards.contains(&x) || cards.contains(&y) {
+                    continue;
+                }
+                emit_showdown(w, 0x3F800000, &cards[..5], &[cards[5], cards[6], x, y]);
+            }
+        }
     }
 }
